@@ -1,6 +1,7 @@
 //! we are using a thread local proxy coroutine to send the io request
 //!
 
+use std::sync::atomic::{AtomicBool, Ordering};
 use std::sync::Arc;
 
 use crate::coroutine::spawn;
@@ -13,10 +14,14 @@ use generator::{co_get_yield, co_yield_with};
 thread_local! {
     // SAFETY: thread and coroutine would not run in parallel
     pub static ASSOCIATED_IO_RET: Arc<AtomicOption<Box<EventResult>>> = Arc::new(AtomicOption::none());
+    // set by the proxy coroutine when it is through with a request: `thread::park` alone does not tell, it may return for
+    // any other unpark of this thread (a token left behind by a std channel, a user's own unpark) or spuriously
+    pub static ASSOCIATED_IO_DONE: Arc<AtomicBool> = Arc::new(AtomicBool::new(false));
     pub static PROXY_CO_SENDER: Sender<EventSubscriber> = {
         let (tx, rx) = channel();
         let parker = std::thread::current();
         let io_ret = ASSOCIATED_IO_RET.with(|r| { r.clone() });
+        let io_done = ASSOCIATED_IO_DONE.with(|d| { d.clone() });
         // this is a proxy coroutine
         let _co = unsafe { spawn(move || {
             // the coroutine would be gone if the thread exit
@@ -26,6 +31,7 @@ thread_local! {
                     io_ret.store(Box::new(r));
                 }
                 // wake up the master thread
+                io_done.store(true, Ordering::Release);
                 parker.unpark();
             }
         })};
